@@ -64,6 +64,9 @@ Definition wev_eqb (a b : wev) : bool :=
          payload, returned error leaves.
    CBuilt kind sig opts batching | a consumer / processor / exporter built by the real constructor with the
          WithCapabilities options [opts] (their MutatesData values, in order); observed: Capabilities().MutatesData.
+   CRoutes sig pipe_caps sels | ONE router; Consumer(sel...) is called for every selection in turn and all results are
+         kept; then one payload is sent through each kept result; observed per route: MutatesData and the pipelines
+         invoked, in order.
    CRouter sig pipe_caps sel | observed: MutatesData of connector router.Consumer(sel...), of the router
          itself (fan-out over all pipelines), and the pipelines invoked, in order, by the selected consumer.
    CTree sig roots | observed: MutatesData of the consumer handed to the receiver that feeds the root
@@ -98,6 +101,7 @@ Inductive vcase :=
 | CGraph (sig : nat) (ro_in : bool) (tree : comp) (o_arr : list (nat * (nat * list Z))) (o_fin : list (nat * list Z))
 | CSess (sig : nat) (caps : list bool) (script : list wslabel) (o_dels : list dobs)
 | CBuilt (kind sig : nat) (opts : list bool) (batching : bool) (o_cap : bool)
+| CRoutes (sig : nat) (pipe_caps : list bool) (sels : list (list nat)) (o_routes : list (bool * list nat))
 | CRouter (sig : nat) (pipe_caps : list bool) (sel : list nat) (o_cap o_default_cap : bool) (o_calls : list nat).
 
 Record fan_out := mkOut { f_cap : bool; f_evs : list wev; f_final : list (option (list Z)); f_ro0 : bool; f_err : list N }.
@@ -164,6 +168,12 @@ Definition dobs_eqb (a b : dobs) : bool :=
   let '(e2, (f2, (r2, x2))) := b in
   list_eqb wev_eqb e1 e2 && list_eqb (option_eqb listZ_eqb) f1 f2 && Bool.eqb r1 r2 && list_eqb N.eqb x1 x2.
 
+(* several route consumers obtained from ONE router by successive Consumer(sel...) calls and all kept: each is the
+   fan-out over its own selection, whatever was asked of the router before or after *)
+Definition model_routes (pcaps : list bool) (sels : list (list nat)) : list (bool * list nat) :=
+  map (fun sel => (fan_cap (router_fan pcaps sel), router_calls pcaps sel)) sels.
+Definition route_eqb (a b : bool * list nat) : bool := Bool.eqb (fst a) (fst b) && list_eqb Nat.eqb (snd a) (snd b).
+
 Definition check_case (c : vcase) : bool :=
   match c with
   | CFan _ caps ro_in c0 errs ls o_cap o_evs o_final o_ro0 o_err =>
@@ -182,6 +192,7 @@ Definition check_case (c : vcase) : bool :=
       && match panics ev with [] => true | _ => false end
   | CBuilt kind _ opts batching o_cap => Bool.eqb (model_cap kind opts batching) o_cap
   | CSess _ caps script o_dels => list_eqb dobs_eqb (model_sess caps script) o_dels
+  | CRoutes _ pcaps sels o => list_eqb route_eqb (model_routes pcaps sels) o
   | CRouter _ pcaps sel o_cap o_dcap o_calls =>
       Bool.eqb (fan_cap (router_fan pcaps sel)) o_cap
       && Bool.eqb (fan_cap (new_fan pcaps)) o_dcap
@@ -192,6 +203,7 @@ Definition check_case (c : vcase) : bool :=
 
 (* model outputs, for replay files *)
 Inductive mout := MFan (o : fan_out) | MCaps (l : list bool) | MCalls (c d : bool) (l : list nat)
+| MRoutes (l : list (bool * list nat))
 | MSess (l : list dobs)
 | MGraph (a : list (nat * (nat * list Z))) (f : list (nat * list Z)) (p : list nat).
 Definition model_out (c : vcase) : mout :=
@@ -201,6 +213,7 @@ Definition model_out (c : vcase) : mout :=
   | CGraph _ ro tree _ _ => let '(s', ev) := trun tree 0 [mkCell [] ro] in MGraph (canon_obs [0] ev) (final_obs s' ev) (panics ev)
   | CBuilt kind _ opts batching _ => MCaps [model_cap kind opts batching]
   | CSess _ caps script _ => MSess (model_sess caps script)
+  | CRoutes _ pcaps sels _ => MRoutes (model_routes pcaps sels)
   | CRouter _ pcaps sel _ _ _ => MCalls (fan_cap (router_fan pcaps sel)) (fan_cap (new_fan pcaps)) (router_calls pcaps sel)
   | CTree _ roots _ _ => MCaps (fan_cap (new_fan (map pipe_cap_t roots)) :: flat_map pipe_caps roots)
   end.
